@@ -159,6 +159,7 @@ static const unsigned char site_ro[MYTH_VS_N_SITES] = {
   [MYTH_VS_Q_POP_QC] = 1, [MYTH_VS_Q_TAKE_QC] = 1, [MYTH_VS_Q_PEEK_QC] = 1,
   [MYTH_VS_SPIN_TRY] = 1, [MYTH_VS_MUTEX_CAS] = 1, [MYTH_VS_BARRIER_CAS] = 1, [MYTH_VS_JC_CAS] = 1, [MYTH_VS_ONCE_CAS] = 1,
   [MYTH_VS_SSTACK_CAS] = 1, [MYTH_VS_KEY_CAS] = 1, [MYTH_VS_INIT_CAS] = 1,
+  [MYTH_VS_SPIN_UNLOCKED] = 1,
 };
 
 int mvsim_active(void) { return g_active; }
